@@ -84,4 +84,206 @@ theorem replies_run (cfg : Cfg) (reply : Int → Bytes) (c : Nat) : ∀ (l : Lis
     rw [i2]
     cases hc : r.cancelled <;> simp [hc]
 
+theorem run_app (cfg : Cfg) (a : List Ev) : ∀ (s : St) (b : List Ev), run cfg s (a ++ b) = run cfg (run cfg s a) b := by
+  induction a with
+  | nil => intro s b; rfl
+  | cons e es ih => intro s b; simp only [List.cons_append, run]; exact ih _ b
+
+theorem obs_app (cfg : Cfg) (a : List Ev) : ∀ (s : St) (b : List Ev),
+    obs cfg s (a ++ b) = obs cfg s a ++ obs cfg (run cfg s a) b := by
+  induction a with
+  | nil => intro s b; simp [obs, trace, run]
+  | cons e es ih =>
+    intro s b
+    have := ih (step cfg s e).1 b
+    simp only [obs] at this
+    simp only [List.cons_append, obs, trace, List.flatMap_cons, run, this, List.append_assoc]
+
+/-- a connection attempt is pending, the client is open, the transport's write works -/
+structure Dialing (s : St) : Prop where
+  sinv : SInv s
+  proto : s.proto = none
+  conn : s.connector = .attempt
+  isOpen : s.closed = false
+  wok : s.wfail = false
+
+/-- the attempt succeeds and the broker answers every request that expects a reply -/
+def dialAndAnswer (reply : Int → Bytes) (s : St) : List Ev := .connOk :: replies reply (s.reqs.filter (·.expect))
+
+theorem replies_map_sent (reply : Int → Bytes) (l : List Req) :
+    replies reply (l.map (fun r => { r with sent := true })) = replies reply l := by
+  simp [replies, replyEv, List.map_map, Function.comp_def]
+
+theorem dial_run (cfg : Cfg) (reply : Int → Bytes) (s : St) (h : Dialing s) (hg : ∀ r ∈ s.reqs, GoodReply reply r.id) :
+    (run cfg s (dialAndAnswer reply s)).reqs = [] ∧ (run cfg s (dialAndAnswer reply s)).closed = false ∧
+    ∀ r ∈ s.reqs,
+      (r.expect = true → Ob.fire r.serial r.id (.ok (reply r.id)) ∈ obs cfg s (dialAndAnswer reply s)) ∧
+      (r.expect = false → Ob.fire r.serial r.id .none ∈ obs cfg s (dialAndAnswer reply s)) := by
+  have hunsent := h.sinv.discUnsent h.proto
+  have huncanc : ∀ r ∈ s.reqs, r.cancelled = false := by
+    intro r hr
+    cases hc : r.cancelled with
+    | false => rfl
+    | true => have := h.sinv.cancSent r hr hc; rw [hunsent r hr] at this; cases this
+  -- the step that establishes the connection
+  have hfilt : s.reqs.filter (fun r => r.sent || (r.expect && !false)) = s.reqs.filter (·.expect) := by
+    apply List.filter_congr
+    intro r hr
+    simp [hunsent r hr]
+  have hstep : (step cfg s .connOk).1.reqs = (s.reqs.filter (·.expect)).map (fun r => { r with sent := true }) ∧
+      (step cfg s .connOk).1.proto = some s.nconn ∧ (step cfg s .connOk).1.losing = false ∧
+      (step cfg s .connOk).1.rbuf = [] ∧ (step cfg s .connOk).1.closed = false ∧
+      (step cfg s .connOk).2 = s.reqs.flatMap (fun r => if r.sent then [] else
+        [Ob.write s.nconn r.serial r.id] ++ (if r.expect then [] else [.fire r.serial r.id .none])) := by
+    simp only [step, h.conn, if_true, h.isOpen, Bool.false_eq_true, if_false, sendQueued, keepAfterSend, sendObs, h.wok, hfilt]
+    simp
+  obtain ⟨q1, q2, q3, q4, q5, q6⟩ := hstep
+  have hsinv := sinv_step cfg s .connOk h.sinv
+  have hpw := hsinv.ids
+  rw [q1] at hpw
+  have hg' : ∀ r ∈ (s.reqs.filter (·.expect)).map (fun r => { r with sent := true }), GoodReply reply r.id := by
+    intro r hr
+    obtain ⟨r0, hr0, rfl⟩ := List.mem_map.mp hr
+    exact hg r0 (List.mem_filter.mp hr0).1
+  obtain ⟨k1, k2⟩ := replies_run cfg reply s.nconn _ (step cfg s .connOk).1 q1 hpw q2 q3 q4 hg'
+  rw [replies_map_sent] at k1 k2
+  have hrun : run cfg s (dialAndAnswer reply s) = { (step cfg s .connOk).1 with reqs := [] } := by
+    simp only [dialAndAnswer, run]; exact k1
+  have hobs : obs cfg s (dialAndAnswer reply s) = (step cfg s .connOk).2 ++
+      obs cfg (step cfg s .connOk).1 (replies reply (s.reqs.filter (·.expect))) := by
+    simp [dialAndAnswer, obs, trace]
+  refine ⟨by rw [hrun], by rw [hrun]; exact q5, ?_⟩
+  intro r hr
+  rw [hobs, k2, q6]
+  constructor
+  · intro he
+    apply List.mem_append_right
+    apply List.mem_map.mpr
+    refine ⟨{ r with sent := true }, ?_, rfl⟩
+    apply List.mem_filter.mpr
+    refine ⟨List.mem_map.mpr ⟨r, List.mem_filter.mpr ⟨hr, by simp [he]⟩, rfl⟩, by simp [huncanc r hr]⟩
+  · intro he
+    apply List.mem_append_left
+    apply List.mem_flatMap.mpr
+    exact ⟨r, hr, by simp [hunsent r hr, he]⟩
+
+/-- what has to happen before the attempt can succeed: the write works again; a connection that exists goes away; a
+    pending back-off timer runs down -/
+def rescuePre (s : St) : List Ev :=
+  match s.proto with
+  | some _ => [.writeFail false, .lost]
+  | none => match s.connector with
+    | .backoff due => [.writeFail false, .advance (if due ≤ s.now then 0 else due - s.now)]
+    | _ => [.writeFail false]
+
+/-- the explicit continuation after which nothing is outstanding -/
+def rescue (cfg : Cfg) (reply : Int → Bytes) (s : St) : List Ev :=
+  let s' := run cfg s (rescuePre s)
+  rescuePre s ++ (if s'.connector = .attempt then dialAndAnswer reply s' else [])
+
+/-- after `rescuePre`: either a connection attempt is pending, or nothing is in the table; and every uncancelled
+    request is still in the table (same serial, id, reply flag), every id in the table was there before, nothing fired -/
+theorem rescuePre_facts (cfg : Cfg) (s : St) (hs : SInv s) (hc : s.closed = false) :
+    let s' := run cfg s (rescuePre s)
+    SInv s' ∧ s'.closed = false ∧ s'.wfail = false ∧ s'.proto = none ∧
+    (s'.connector = .attempt ∨ s'.reqs = []) ∧
+    (∀ r ∈ s.reqs, r.cancelled = false → ∃ r' ∈ s'.reqs, r'.serial = r.serial ∧ r'.id = r.id ∧ r'.expect = r.expect) ∧
+    (∀ r' ∈ s'.reqs, ∃ r ∈ s.reqs, r.id = r'.id) := by
+  intro s'
+  have hsinv : SInv s' := sinv_run cfg s _ hs
+  refine ⟨hsinv, ?_⟩
+  cases hp : s.proto with
+  | some c =>
+    have e : s' = (lostStep { s with wfail := false }).1 := by
+      simp only [s', rescuePre, hp, run, step]
+    rw [e]
+    simp only [lostStep, hc, Bool.false_eq_true, if_false, connect_, tryConnect]
+    split
+    · rename_i hem
+      refine ⟨rfl, rfl, rfl, Or.inr ?_, ?_, ?_⟩
+      · simpa using hem
+      · intro r hr hcn
+        exact ⟨{ r with sent := false }, List.mem_map.mpr ⟨r, List.mem_filter.mpr ⟨hr, by simp [hcn]⟩, rfl⟩, rfl, rfl, rfl⟩
+      · intro r' hr'
+        obtain ⟨r, hr, rfl⟩ := List.mem_map.mp hr'
+        exact ⟨r, (List.mem_filter.mp hr).1, rfl⟩
+    · refine ⟨rfl, rfl, rfl, Or.inl rfl, ?_, ?_⟩
+      · intro r hr hcn
+        exact ⟨{ r with sent := false }, List.mem_map.mpr ⟨r, List.mem_filter.mpr ⟨hr, by simp [hcn]⟩, rfl⟩, rfl, rfl, rfl⟩
+      · intro r' hr'
+        obtain ⟨r, hr, rfl⟩ := List.mem_map.mp hr'
+        exact ⟨r, (List.mem_filter.mp hr).1, rfl⟩
+  | none =>
+    have keep : ∀ t : St, t.reqs = s.reqs →
+        (∀ r ∈ s.reqs, r.cancelled = false → ∃ r' ∈ t.reqs, r'.serial = r.serial ∧ r'.id = r.id ∧ r'.expect = r.expect) ∧
+        (∀ r' ∈ t.reqs, ∃ r ∈ s.reqs, r.id = r'.id) := by
+      intro t ht
+      rw [ht]
+      exact ⟨fun r hr _ => ⟨r, hr, rfl, rfl, rfl⟩, fun r' hr' => ⟨r', hr', rfl⟩⟩
+    cases hcn : s.connector with
+    | backoff due =>
+      have e : s' = (tryConnect { s with wfail := false, now := s.now + (if due ≤ s.now then 0 else due - s.now) }).1 := by
+        simp only [s', rescuePre, hp, hcn, run, step]
+        have hdt : ¬ (if due ≤ s.now then (0 : Rat) else due - s.now) < 0 := by
+          split
+          · exact Rat.not_lt.mpr (Rat.le_refl)
+          · rename_i hlt
+            have : s.now ≤ due := Rat.le_of_lt (Rat.not_le.mp hlt)
+            exact Rat.not_lt.mpr (by grind)
+        simp only [hdt, if_false]
+        have hdue : due ≤ s.now + (if due ≤ s.now then 0 else due - s.now) := by
+          split
+          · rename_i hle; rw [Rat.add_zero]; exact hle
+          · grind
+        simp only [hdue, if_true]
+      rw [e]
+      simp only [tryConnect]
+      exact ⟨hc, by simp, hp, by simp, keep _ rfl⟩
+    | attempt =>
+      have e : s' = { s with wfail := false } := by simp only [s', rescuePre, hp, hcn, run, step]
+      rw [e]
+      exact ⟨hc, rfl, hp, Or.inl hcn, keep _ rfl⟩
+    | none =>
+      have e : s' = { s with wfail := false } := by simp only [s', rescuePre, hp, hcn, run, step]
+      rw [e]
+      exact ⟨hc, rfl, hp, Or.inr (hs.idleEmpty hp hcn hc), keep _ rfl⟩
+    | stale =>
+      have := hs.staleClosed hcn
+      rw [hc] at this; cases this
+
+/-- From ANY state of an open client: after `rescue` the table is empty, the client is still open, and every request
+    that was outstanding (in the table, not cancelled) has been ANSWERED — `ok (reply id)` if it expects a reply,
+    `None` (on being written) if it does not. -/
+theorem rescue_answers (cfg : Cfg) (reply : Int → Bytes) (s : St) (hs : SInv s) (hc : s.closed = false)
+    (hg : ∀ r ∈ s.reqs, GoodReply reply r.id) :
+    (run cfg s (rescue cfg reply s)).reqs = [] ∧ (run cfg s (rescue cfg reply s)).closed = false ∧
+    ∀ r ∈ s.reqs, r.cancelled = false →
+      (r.expect = true → Ob.fire r.serial r.id (.ok (reply r.id)) ∈ obs cfg s (rescue cfg reply s)) ∧
+      (r.expect = false → Ob.fire r.serial r.id .none ∈ obs cfg s (rescue cfg reply s)) := by
+  obtain ⟨f1, f2, f3, f4, f5, f6, f7⟩ := rescuePre_facts cfg s hs hc
+  simp only [rescue]
+  by_cases hat : (run cfg s (rescuePre s)).connector = .attempt
+  · simp only [hat, if_true, run_app, obs_app]
+    have hd : Dialing (run cfg s (rescuePre s)) := ⟨f1, f4, hat, f2, f3⟩
+    have hg' : ∀ r ∈ (run cfg s (rescuePre s)).reqs, GoodReply reply r.id := by
+      intro r' hr'
+      obtain ⟨r, hr, he⟩ := f7 r' hr'
+      rw [← he]; exact hg r hr
+    obtain ⟨d1, d2, d3⟩ := dial_run cfg reply _ hd hg'
+    refine ⟨d1, d2, ?_⟩
+    intro r hr hcn
+    obtain ⟨r', hr', e1, e2, e3⟩ := f6 r hr hcn
+    obtain ⟨a1, a2⟩ := d3 r' hr'
+    rw [e1, e2, e3] at a1 a2
+    exact ⟨fun he => List.mem_append_right _ (a1 he), fun he => List.mem_append_right _ (a2 he)⟩
+  · simp only [hat, if_false, List.append_nil]
+    have hem : (run cfg s (rescuePre s)).reqs = [] := by
+      rcases f5 with h | h
+      · exact absurd h hat
+      · exact h
+    refine ⟨hem, f2, ?_⟩
+    intro r hr hcn
+    obtain ⟨r', hr', _⟩ := f6 r hr hcn
+    rw [hem] at hr'; cases hr'
+
 end Afkak.BrokerClient
